@@ -3102,6 +3102,19 @@ impl Zeroconf {
                 continue;
             }
 
+            // An answer that equals a record we already hold for this name is our own
+            // announcement or answer heard back (multicast loop), not a conflict.
+            let held = dns_registry.active.get(name).is_some_and(|records| {
+                records.iter().any(|r| {
+                    r.get_type() == answer.get_type()
+                        && r.get_class() == answer.get_class()
+                        && r.rrdata_match(answer.as_ref())
+                })
+            });
+            if held {
+                continue;
+            }
+
             // check against possible multicast forwarding
             if answer.get_type() == RRType::A || answer.get_type() == RRType::AAAA {
                 if let Some(answer_addr) = answer.any().downcast_ref::<DnsAddress>() {
